@@ -14,7 +14,7 @@ Results are kept in /tmp/seedres/Cxx-mK.json between the steps.
 """
 import json, os, re, subprocess, sys, shutil, time, glob
 
-ENV = dict(os.environ, CARGO_NET_OFFLINE="true", CARGO_TARGET_DIR="/tmp/seedtarget")
+ENV = dict(os.environ, CARGO_NET_OFFLINE="true", CARGO_TARGET_DIR=os.environ.get("SEED_TARGET", "/tmp/seedtarget"))
 RES = "/tmp/seedres"
 ALL = ["C%02d" % i for i in range(1, 21)]
 
@@ -85,7 +85,7 @@ def run(pid, m, checks):
     results = d.get("checks", {})
     try:
         env = dict(os.environ, CARGO_NET_OFFLINE="true", VERIF_SEED=os.environ.get("VERIF_SEED", "0"))
-        for c in checks:
+        def one(c):
             t0 = time.time()
             rc, out = sh("/tmp/ve/check %s --tier %s 2>&1" % (c, os.environ.get("SEED_TIER", "quick")), cwd="/tmp/ve", env=env)
             viol = [l for l in out.splitlines() if l.startswith("VIOLATION")]
@@ -98,9 +98,16 @@ def run(pid, m, checks):
                         replay = {k: (str(rj.get(k))[:600]) for k in ("why", "text", "data", "impl_observation", "driver_verdict") if rj.get(k) is not None}
                     except Exception as e:
                         replay = {"unreadable": str(e)}
-            results[c] = {"exit": rc, "violation": viol[:1], "no_failing_input": bool(viol and viol[0].rstrip().endswith("no-failing-input-found")),
-                          "replay": replay, "seconds": int(time.time() - t0), "tail": out[-600:] if rc not in (0, 1) or (rc == 1 and not viol) else ""}
+            r = {"exit": rc, "violation": viol[:1], "no_failing_input": bool(viol and viol[0].rstrip().endswith("no-failing-input-found")),
+                 "replay": replay, "seconds": int(time.time() - t0), "tail": out[-600:] if rc not in (0, 1) or (rc == 1 and not viol) else ""}
             print(key, c, "exit", rc, viol[:1], flush=True)
+            return c, r
+        # build the harness once against the changed tree, then run the checks a few at a time
+        first = one(checks[0]); results[first[0]] = first[1]
+        from concurrent.futures import ThreadPoolExecutor
+        with ThreadPoolExecutor(max_workers=int(os.environ.get("SEED_JOBS", "5"))) as ex:
+            for c, r in ex.map(one, checks[1:]):
+                results[c] = r
     finally:
         sh("git -C /repo checkout -- .")
     d["checks"] = results
